@@ -179,6 +179,9 @@ func argTextD(v ssa.Value, d int, seen map[ssa.Value]bool) string {
 	case *ssa.FreeVar:
 		return core.FreeVarName(x)
 	case *ssa.Global:
+		if x.Pkg != nil && x.Pkg.Pkg != nil {
+			return x.Pkg.Pkg.Name() + "." + x.Name()
+		}
 		return x.Name()
 	case *ssa.Function:
 		return "func:" + core.FuncName(x)
@@ -304,7 +307,7 @@ func WiringRows(fn *ssa.Function, want func(callee string) bool) []string {
 				}
 				if std {
 					// pure helpers of the standard library: their operands decide conditions and keys
-				} else if strings.HasPrefix(full, "builtin:") || strings.Contains(full, "Logger") || !(cc.IsInvoke() && strings.Contains(cc.Value.Type().String(), core.Module) || strings.Contains(full, "/") && !strings.Contains(full, "k8s.io") && !strings.Contains(full, "sigs.k8s") && strings.Contains(core.CalleeName(cc), "converters/") || strings.Contains(core.CalleeName(cc), "haproxy/") || strings.Contains(core.CalleeName(cc), "haproxy.") || strings.Contains(core.CalleeName(cc), "acme.") || strings.Contains(core.CalleeName(cc), "utils")) {
+				} else if strings.HasPrefix(full, "builtin:") || strings.Contains(full, "Logger") || !(cc.IsInvoke() && strings.Contains(cc.Value.Type().String(), core.Module) || strings.Contains(full, "/") && !strings.Contains(full, "k8s.io") && !strings.Contains(full, "sigs.k8s") && strings.Contains(core.CalleeName(cc), "converters/") || strings.Contains(core.CalleeName(cc), "haproxy/") || strings.Contains(core.CalleeName(cc), "haproxy.") || strings.Contains(core.CalleeName(cc), "acme.") || strings.Contains(core.CalleeName(cc), "controller/") || strings.Contains(core.CalleeName(cc), "common/") || strings.Contains(core.CalleeName(cc), "utils")) {
 					continue
 				}
 			}
@@ -320,7 +323,7 @@ func WiringRows(fn *ssa.Function, want func(callee string) bool) []string {
 }
 
 // wiringScope lists the packages whose functions are in the generated table.
-var wiringScope = []string{"converters", "converters/ingress", "converters/gateway", "converters/utils", "converters/configmap", "converters/ingress/annotations", "haproxy", "haproxy/types", "haproxy/socket", "haproxy/template", "acme", "utils/workqueue"}
+var wiringScope = []string{"converters", "converters/ingress", "converters/gateway", "converters/utils", "converters/configmap", "converters/ingress/annotations", "haproxy", "haproxy/types", "haproxy/socket", "haproxy/template", "acme", "utils/workqueue", "controller/services", "controller/legacy", "controller/reconciler", "common/net/ssl", "utils"}
 
 // WiringAll renders the table of the current tree (used by `hapverif genwiring`).
 func WiringAll(env *core.Env) map[string][]string {
@@ -407,6 +410,9 @@ var wiringGroups = []wiringGroup{
 	{[]string{"C05", "C02", "C11", "C12", "C04", "C07"}, "model, updater and writers", []string{"haproxy", "haproxy/types", "haproxy/socket", "haproxy/template"}, nil,
 		"every call inside pkg/haproxy: what the dynamic updater sends to the socket (command strings are built with fmt.Sprintf), what the writers hand to the templates, what the containers index by"},
 	{[]string{"C17"}, "acme signer", []string{"acme"}, nil, "every call of the signer and the client"},
+	{[]string{"C08", "C09", "C15", "C17", "C10", "C01", "C12", "C13"}, "cache facades and services", []string{"controller/services", "controller/legacy", "common/net/ssl", "utils"}, nil,
+		"every call of the cache facades of both runtimes: which API version, namespace, name and file name a read or a write is made with"},
+	{[]string{"C14", "C08", "C13"}, "watchers", []string{"controller/reconciler"}, nil, "every call of the watchers and the reconciler"},
 	{[]string{"C13", "C12"}, "queues", []string{"utils/workqueue"}, nil, "every call of the work queue and the limiters"},
 	{[]string{"C19"}, "snippets", []string{"converters/ingress/annotations"},
 		set("firstToken", "LineToSlice", "Split", "buildBackendCustomConfig"),
